@@ -413,9 +413,9 @@ var hlWords = []string{
 }
 
 func genStored(r *vrand.R) (string, []string) {
-	n := r.Range(1, 60)
-	if r.Chance(1, 6) {
-		n = r.Range(60, 200)
+	n := r.Range(1, 40)
+	if r.Chance(1, 12) {
+		n = r.Range(40, 120)
 	}
 	var sb strings.Builder
 	var ws []string
@@ -475,8 +475,23 @@ func genLocs(r *vrand.R, n int) [][2]int {
 
 // ---------------------------------------------------------------- gen
 
-func gen(f vh.Flags, r *vrand.R, emit func(In)) {
+func gen(f vh.Flags, r *vrand.R, emitOut func(In)) {
 	setup()
+	// cases are shuffled (seeded) before they are handed over so that the expensive kinds are
+	// spread evenly over the Coq shards
+	var all []In
+	emit := func(in In) { all = append(all, in) }
+	defer func() {
+		head := 5
+		if len(all) < head {
+			head = len(all)
+		}
+		rest := all[head:]
+		vrand.Shuffle(r, rest)
+		for _, in := range all {
+			emitOut(in)
+		}
+	}()
 	// 0. coverage of the registered names (T1 list vs what this harness instantiates)
 	covers := []struct {
 		kind string
